@@ -462,6 +462,9 @@ class FnEmit:
         body = []
         s.out = body
         s.curblk = None
+        for rx, code in getattr(cx.o, 'entry_hooks', []) or []:
+            if re.search(rx, cx.dem.get(cname(f.name), '')):
+                w(code); cx.hooked.append(cx.dem.get(cname(f.name), ''))
         for lbl, rows in f.blocks:
             s.curblk = lbl
             w('%s: ;' % s.blk('%' + lbl))
@@ -687,7 +690,7 @@ MODELS = {'m_memcmp', 'm_free', 'm_malloc', 'm_posix_memalign', 'm_abort', 'm_st
           '__cxa_allocate_exception', '__cxa_throw', '__cxa_begin_catch', '__cxa_end_catch', '__cxa_free_exception', '__cxa_rethrow',
           '__cxa_guard_acquire', '__cxa_guard_release', '__cxa_guard_abort', '__cxa_atexit', '__cxa_thread_atexit', '_ZSt9terminatev', '__clang_call_terminate',
           '__cxa_pure_virtual', '_ZSt17__throw_bad_allocv', '_ZSt20__throw_length_errorPKc', '_ZSt28__throw_bad_array_new_lengthv',
-          '_ZNSt8ios_base4InitC1Ev', '_ZNSt8ios_base4InitD1Ev', '__CPROVER_assume', '__CPROVER_assert', '__CPROVER_atomic_begin', '__CPROVER_atomic_end', '_ZSt19__throw_logic_errorPKc', '_ZSt24__throw_out_of_range_fmtPKcz', '__assert_fail', 'pthread_self'}
+          '_ZNSt8ios_base4InitC1Ev', '_ZNSt8ios_base4InitD1Ev', '__CPROVER_assume', '__CPROVER_assert', '__CPROVER_atomic_begin', '__CPROVER_atomic_end', '_ZSt19__throw_logic_errorPKc', '_ZSt24__throw_out_of_range_fmtPKcz', '__assert_fail', 'pthread_self', 'pthread_mutex_lock', 'pthread_mutex_unlock', 'pthread_mutex_trylock', '_ZSt20__throw_system_errori', '_ZNSt12length_errorC1EPKc', '_ZNSt12length_errorD1Ev', '_ZNSt9bad_allocD1Ev', '_ZNSt11logic_errorC1EPKc', '_ZNSt11logic_errorD1Ev', '_ZNSt9exceptionD1Ev', '_ZNSt9exceptionD2Ev'}
 
 PRELUDE = r'''
 #include <stdint.h>
@@ -812,6 +815,19 @@ static uint64_t pthread_self(void) { return (uint64_t)__CPROVER_thread_id + 1; }
 #else
 static uint64_t pthread_self(void) { return 1; }
 #endif
+/* std::mutex: ghost owner flag kept in the first word of the pthread_mutex_t; single-threaded harnesses */
+uint64_t ir2c_mutex_held;
+static uint32_t pthread_mutex_lock(ptr m) { __CPROVER_assert(*(uint32_t*)m == 0, "mutex is not already held when locked (self-deadlock)"); *(uint32_t*)m = 1; ir2c_mutex_held++; return 0; }
+static uint32_t pthread_mutex_trylock(ptr m) { if (*(uint32_t*)m != 0) return 16; *(uint32_t*)m = 1; ir2c_mutex_held++; return 0; }
+static uint32_t pthread_mutex_unlock(ptr m) { __CPROVER_assert(*(uint32_t*)m == 1, "mutex is held when unlocked"); *(uint32_t*)m = 0; ir2c_mutex_held--; return 0; }
+static void _ZSt20__throw_system_errori(uint32_t e) { ir2c_exc_obj = __cxa_allocate_exception(8); ir2c_exc_type = 5; ir2c_exc_pending = 1; }
+static void _ZNSt12length_errorC1EPKc(ptr t, ptr m) {}
+static void _ZNSt12length_errorD1Ev(ptr t) {}
+static void _ZNSt11logic_errorC1EPKc(ptr t, ptr m) {}
+static void _ZNSt11logic_errorD1Ev(ptr t) {}
+static void _ZNSt9bad_allocD1Ev(ptr t) {}
+static void _ZNSt9exceptionD1Ev(ptr t) {}
+static void _ZNSt9exceptionD2Ev(ptr t) {}
 static void _ZNSt8ios_base4InitC1Ev(ptr p) {}
 static void _ZNSt8ios_base4InitD1Ev(ptr p) {}
 '''
@@ -886,7 +902,7 @@ def demangle(names):
 def translate(mod, opts):
     cx = Ctx(mod, opts); cx.called = set()
     dem = demangle([cname(n) for n in mod.funcs])
-    cx.stubbed = []; cx.dem = dem; cx.pruned = 0
+    cx.stubbed = []; cx.dem = dem; cx.pruned = 0; cx.hooked = []
     bodies = []; protos = []
     for name, f in mod.funcs.items():
         if f.blocks is None or cname(name) in MODELS: continue
@@ -958,7 +974,7 @@ def translate(mod, opts):
     out += gdecl
     out.append(MODELS_C)
     out += protos; out += gdef; out += stubs; out += bodies
-    global CX_STUBBED, CX_PRUNED; CX_STUBBED = cx.stubbed; CX_PRUNED = cx.pruned
+    global CX_STUBBED, CX_PRUNED, CX_HOOKED; CX_STUBBED = cx.stubbed; CX_PRUNED = cx.pruned; CX_HOOKED = cx.hooked
     return '\n'.join(out) + '\n'
 
 if __name__ == '__main__':
